@@ -661,6 +661,15 @@ impl Cfg {
 
 pub const NGEN: usize = 9; // generic actions after the kind's ops
 
+/// Is the node store so small that a history of the given depth can fill it? Then reordering (and
+/// for ZBDDs add_vars, which rebuilds the tautology chain) is left out of the alphabet: these calls
+/// cannot report OutOfMemory through their signatures and abort the process instead, which is C14's
+/// recorded finding and not the subject of the history checks. ZBDD diagrams over up to 5 variables
+/// plus the garbage of 5 operations exceed 32 nodes.
+pub fn tight<K: HKind>(cfg: &Cfg, depth: usize) -> bool {
+    cfg.nodes < 32 || (K::ZBDD && cfg.nodes < 48 && depth >= 5)
+}
+
 pub fn num_actions<K: HKind>() -> usize {
     K::OPS.len() + NGEN
 }
@@ -1010,7 +1019,7 @@ pub fn explore<K: HKind>(ctx: &mut Ctx, prop: Prop, cfg: &Cfg, prefix: &[usize],
     {
         let mut ms = MState::init::<K>();
         for &a in prefix {
-            if !ms.enabled::<K>(a, cfg.nodes < 32) {
+            if !ms.enabled::<K>(a, tight::<K>(cfg, depth)) {
                 return;
             }
             ms.step::<K>(a);
@@ -1052,7 +1061,7 @@ pub fn explore<K: HKind>(ctx: &mut Ctx, prop: Prop, cfg: &Cfg, prefix: &[usize],
             ms.step::<K>(a);
         }
         for a in 0..na {
-            if ms.enabled::<K>(a, cfg.nodes < 32) {
+            if ms.enabled::<K>(a, tight::<K>(cfg, depth)) {
                 seq.push(a);
                 rec::<K>(ctx, prop, cfg, seq, prev, depth, na, base);
                 seq.pop();
@@ -1084,6 +1093,7 @@ fn nest<K: HKind, R>(outer: &Option<MRef<K>>, f: impl FnOnce() -> R) -> R {
 
 fn run_one<K: HKind>(ctx: &mut Ctx, prop: Prop, cfg: &Cfg, seq: &[usize], prev: &[usize], base: &std::cell::RefCell<std::collections::BTreeMap<Vec<u32>, usize>>) {
     let lcp = seq.iter().zip(prev.iter()).take_while(|(a, b)| a == b).count();
+    let depth = seq.len();
     ctx.count("evaluations", 1);
     ctx.count("executions", 1);
     if prop == Prop::C06 {
@@ -1094,7 +1104,7 @@ fn run_one<K: HKind>(ctx: &mut Ctx, prop: Prop, cfg: &Cfg, seq: &[usize], prev: 
     let mut ms = MState::init::<K>();
     let mut nontrivial = false;
     for (i, &a) in seq.iter().enumerate() {
-        if !ms.enabled::<K>(a, cfg.nodes < 32) {
+        if !ms.enabled::<K>(a, tight::<K>(cfg, depth)) {
             // only possible after an operation failed with OutOfMemory (the register it
             // should have filled is empty); the rest of the history is not applicable
             ctx.outcome("history_cut_after_out_of_memory");
@@ -1181,6 +1191,7 @@ fn run_one<K: HKind>(ctx: &mut Ctx, prop: Prop, cfg: &Cfg, seq: &[usize], prev: 
 /// capacity, plus one that was warmed up by unrelated operations; every
 /// operation is re-issued once and must return the same handle.
 fn run_one_c06<K: HKind>(ctx: &mut Ctx, cfg: &Cfg, seq: &[usize], lcp: usize) {
+    let depth = seq.len();
     let caps: &[usize] = if ctx.thorough() { &[1, 2, 16, 4096] } else { &[1, 16, 4096] };
     let mut sts: Vec<IState<K>> = caps.iter().map(|&c| new_istate::<K>(&Cfg { cache: c, ..*cfg })).collect();
     // warmed-up manager: unrelated operations first (results dropped)
@@ -1213,7 +1224,7 @@ fn run_one_c06<K: HKind>(ctx: &mut Ctx, cfg: &Cfg, seq: &[usize], lcp: usize) {
         if checked {
             ctx.count("transitions", 1);
         }
-        if !ms.enabled::<K>(a, cfg.nodes < 32) {
+        if !ms.enabled::<K>(a, tight::<K>(cfg, depth)) {
             break;
         }
         let mut ooms = 0;
